@@ -50,6 +50,10 @@ def world(name):
         # a run restarted from the saved assignments of a --keep_tmp run (--read_assignments); next to those saves lie the traces of
         # ANOTHER restart from them that was killed right after it had finished its first chromosome
         extra = ["RESTART"]
+    if name == "w14":
+        # two BAM files given through symbolic links whose targets have other base names (libA.bam -> data/run1.sorted.bam): the groups
+        # of the automatic file-name grouping are named after the paths on the command line, in the resumed run as well
+        extra = ["LINKS"]
     if name == "w11":
         # the stale-folder world with a gzipped reference (unpacked into the output folder by the run): the earlier run worked on
         # another assembly whose file has the same name
@@ -92,6 +96,15 @@ def build_template(name, d):
         with open(os.path.join(d, "in.yaml"), "w") as f:
             yaml.safe_dump([{"data format": "bam"}, {"name": "E1", "long read files": ["e1.bam"]},
                             {"name": "E2", "long read files": ["e2.bam", "e2b.bam"]}], f)
+    if "LINKS" in extra:
+        seqs = syn.genome_sequences(w)
+        names = sorted(set(r["name"] for r in w["reads"]))
+        half = set(names[::2])
+        os.makedirs(os.path.join(d, "data"), exist_ok=True)
+        for lib, run_, sel in (("libA", "run1.sorted", True), ("libB", "run2.sorted", False)):
+            syn.write_bam(w, os.path.join(d, "data", run_ + ".bam"), reads=[r for r in w["reads"] if (r["name"] in half) == sel], seqs=seqs)
+            os.symlink(os.path.join("data", run_ + ".bam"), os.path.join(d, lib + ".bam"))
+            os.symlink(os.path.join("data", run_ + ".bam.bai"), os.path.join(d, lib + ".bam.bai"))
     if "STALE" in extra:
         # the earlier run in the same folder worked on other reads (every second record-name): its saved assignments are not this run's
         seqs = syn.genome_sequences(w)
@@ -141,15 +154,17 @@ def build_template(name, d):
 
 def fresh_copy(template, dest):
     shutil.rmtree(dest, ignore_errors=True)
-    shutil.copytree(template, dest)
+    shutil.copytree(template, dest, symlinks=True)
 
 
 def argv_for(d, extra, threads=1):
     ref = os.path.join(d, "ref.fa.gz") if os.path.exists(os.path.join(d, "ref.fa.gz")) else os.path.join(d, "ref.fa")
     extra = [x.replace("TEMPLATE_DIR", d) for x in extra]
-    flags = set(x for x in extra if x in ("NO_GENEDB", "YAML2", "GZ_GTF", "STALE", "ALTREF", "RESTART"))
+    flags = set(x for x in extra if x in ("NO_GENEDB", "YAML2", "GZ_GTF", "STALE", "ALTREF", "RESTART", "LINKS"))
     extra = [x for x in extra if x not in flags]
     inp = ["--yaml", os.path.join(d, "in.yaml")] if "YAML2" in flags else ["--bam", os.path.join(d, "reads.bam")]
+    if "LINKS" in flags:
+        inp = ["--bam", os.path.join(d, "libA.bam"), os.path.join(d, "libB.bam")]
     if "RESTART" in flags:
         inp = ["--read_assignments", os.path.join(d, "out0", "OUT", "aux", "OUT.save")]
     if "NO_GENEDB" in flags:
@@ -420,7 +435,7 @@ def signature(status, detail):
 
 def run(ctx):
     quick = ctx.tier == "quick"
-    worlds_ = ["w1", "w2", "w3", "w7", "w10", "w11", "w12", "w13"] if quick else ["w1", "w2", "w3", "w4", "w5", "w6", "w7", "w8", "w9", "w10", "w11", "w12", "w13"]
+    worlds_ = ["w1", "w2", "w3", "w7", "w10", "w11", "w12", "w13", "w14"] if quick else ["w1", "w2", "w3", "w4", "w5", "w6", "w7", "w8", "w9", "w10", "w11", "w12", "w13", "w14"]
     if os.environ.get("VERIF_C07_WORLDS"):
         worlds_ = os.environ["VERIF_C07_WORLDS"].split(",")      # development aid: restrict the worlds
     total = 0
@@ -445,6 +460,8 @@ def run(ctx):
                     continue        # quick tier: the --keep_tmp world only in the phases where keeping intermediate files matters
                 if quick and wname == "w7" and (variant == "before" or i % 6):
                     continue        # quick tier: the two-experiment world at every sixth mutation point
+                if quick and wname == "w14" and (variant == "before" or phase_of("x:" + pts[i - 1][1]) not in ("collect",)):
+                    continue        # quick tier: the linked-inputs world while reads are collected (the group names are fixed there)
                 if wname in ("w10", "w11", "w13") and (variant == "before" or (quick and i > 16)):
                     continue        # the stale-folder world: the window is the start of the run (until the old state is cleaned)
                 jobs.append((wname, [(i, variant)], None, ctx.scratch, wid, t0, chroms))
